@@ -89,6 +89,9 @@ def check(chk, repo):
                                             ("idx", ("param", "X_unlabeled"), ("iterproj", dom, li.lid, (0,))))
                 elif dom == ("param", "X_unlabeled"):
                     okn = okn and feats == ("iter", dom, li.lid)
+                elif dom in (("call", ("builtin", "range"), (("call", ("builtin", "len"), (("param", "X_unlabeled"),), ()),), ()),
+                             ("call", ("builtin", "range"), (("idx", ("attr", ("param", "X_unlabeled"), "shape"), ("const", 0)),), ())):
+                    okn = okn and feats == ("idx", ("param", "X_unlabeled"), ("iter", dom, li.lid))
                 else:
                     okn = False
             # validation of the arguments dominates the loop without being part of it; so does a test that the rows to
@@ -163,3 +166,6 @@ def check(chk, repo):
     from ..rules_heap import check_heap
     check_heap(rep, repo, "HEAP-")
     chk.undecided.append("optimality of the recorded costs (IFT theorem, as C01)")
+    # premise: the weights that compete are the configured dissimilarity (flag, matrix and node pair of every selector)
+    from .c10 import check_walk_selectors
+    check_walk_selectors(rep, repo, 'model', 'SemiSupervisedOPF', 'fit', set(), pre="WEIGHT:")
